@@ -46,6 +46,10 @@ def units(tier, seed):
     for fr, ego in frames[:2]:
         for pol in S.POLICIES:
             u.append(dict(seam="frame", family="unknown_gt", frame=fr, ego=list(ego), policy=pol, kmax=2 if tier == "quick" else 3, chunk=[0, 1], tier=tier))
+    # target labels listed in the other order (per-label lists follow the list order)
+    for fr, ego in frames[:2]:
+        for pol in S.POLICIES[:2]:
+            u.append(dict(seam="frame", family="reversed", frame=fr, ego=list(ego), policy=pol, kmax=2, chunk=[0, 1], tier=tier))
     # manager seam: both manager-level filters, both frames
     for fr, ego in frames[:2]:
         for pol in S.POLICIES:
@@ -75,6 +79,8 @@ def run_unit(unit, acc):
                                 ests=[est[i] for i in es], gts=[gt[j] for j in gs], crits=["box3"], thrs=["per_label3"]), acc)
         return
     est, gt = S.pools(_SEED[0])
+    if unit.get("family") == "reversed":
+        est, gt = [est[i] for i in (0, 1, 2, 3, 4, 5, 7)], [gt[j] for j in (0, 1, 2, 3, 4, 7)]
     if unit["seam"] == "manager" and unit["tier"] == "quick":
         est, gt = [est[i] for i in (0, 1, 3, 4, 5, 7)], [gt[j] for j in (0, 1, 3, 4, 7)]
     subs_e = S.sublists(len(est), unit["kmax"])
@@ -89,6 +95,9 @@ def run_unit(unit, acc):
             case = dict(seam=unit["seam"], frame=unit["frame"], ego=unit["ego"], policy=unit["policy"],
                         ests=[est[i] for i in es], gts=[gt[j] for j in gs], crits=list(S.CRIT)[:3],
                         thrs=list(S.THR) if unit["tier"] == "thorough" else ["tight", "per_label", "zero"])
+            if unit.get("family") == "reversed":
+                case["family"] = "reversed"
+                case["crits"], case["thrs"] = ["box_per_label", "ring"], ["per_label"]
             if unit["seam"] == "manager":
                 case["mgr_filter"] = unit["mgr_filter"]
                 case["crits"] = ["box_per_label", "ring"]
@@ -101,10 +110,19 @@ CRIT3 = {"box3": dict(max_x=[12.0, 12.0, 12.0], max_y=[6.0, 6.0, 6.0])}
 THR3 = {"per_label3": [0.5, 2.0, 1.0]}
 
 
+LABELS_R = ["PEDESTRIAN", "CAR"]
+
+
+def _rev(d):
+    return {k: (list(reversed(v)) if isinstance(v, list) else v) for k, v in d.items()}
+
+
 def _params(case, crit, thr):
     """-> (target label names, reference filter cfg, pass/fail threshold list) of a case."""
     if case.get("family") == "unknown_gt":
         return LABELS3, dict(CRIT3[crit], target_labels=LABELS3), THR3[thr]
+    if case.get("family") == "reversed":   # the same per-label values with the target labels listed as [pedestrian, car]
+        return LABELS_R, dict(_rev(S.CRIT[crit]), target_labels=LABELS_R), list(reversed(S.THR[thr]))
     return S.LABELS, S.crit_ref_cfg(crit), S.THR[thr]
 
 
@@ -259,7 +277,7 @@ def _check_frame(case, crit, thr, fr, ests, gts, pre_e, pre_g, acc, label="", pr
         bad("counters", "get_num_success/get_num_fail disagree with the list sizes")
     removed = len(pre_e) + len(pre_g) - len(R) - len(Gc)
     nontriv = removed > 0 or bool(p.fp_object_results) or bool(p.fn_objects) or bool(p.tn_objects)
-    acc.state((case["seam"], case["frame"] == "map", case["policy"], crit, thr, case.get("mgr_filter"), ev, gv), nontrivial=nontriv)
+    acc.state((case["seam"], case.get("family"), case["frame"] == "map", case["policy"], crit, thr, case.get("mgr_filter"), ev, gv), nontrivial=nontriv)
     acc.outcome((ev, gv))
 
 
@@ -272,8 +290,10 @@ def check_case(case, acc):
         acc.sample(case)
     if case["seam"] == "frame":
         u3 = case.get("family") == "unknown_gt"
-        ec = F.eval_config("detection", fr_id, dict(target_labels=["car", "pedestrian", "unknown"], min_point_numbers=[0, 0, 0]) if u3 else None)
-        names = ("car", "pedestrian", "unknown") if u3 else ("car", "pedestrian")
+        rv = case.get("family") == "reversed"
+        ec = F.eval_config("detection", fr_id, dict(target_labels=["car", "pedestrian", "unknown"], min_point_numbers=[0, 0, 0]) if u3 else
+                           (dict(target_labels=["pedestrian", "car"]) if rv else None))
+        names = ("car", "pedestrian", "unknown") if u3 else (("pedestrian", "car") if rv else ("car", "pedestrian"))
         tf = G.transforms(ego)
         res = get_object_results(EvaluationTask.DETECTION, ests, gts, ec.target_labels, MatchingLabelPolicy[case["policy"]], transforms=tf)
         pre_e, pre_g = list(range(len(ests))), list(range(len(gts)))
@@ -281,7 +301,8 @@ def check_case(case, acc):
         for crit in case["crits"]:
             for thr in case["thrs"]:
                 acc.exec()
-                fr = F.evaluate_frame(ec, res, gts, ego, CRIT3[crit] if u3 else S.CRIT[crit], THR3[thr] if u3 else S.THR[thr], labels=names, previous=prev)
+                fr = F.evaluate_frame(ec, res, gts, ego, CRIT3[crit] if u3 else (_rev(S.CRIT[crit]) if rv else S.CRIT[crit]),
+                                      THR3[thr] if u3 else (list(reversed(S.THR[thr])) if rv else S.THR[thr]), labels=names, previous=prev)
                 pre_results = {G.index_of(r.estimated_object, ests): (None if r.ground_truth_object is None else G.index_of(r.ground_truth_object, gts)) for r in res}
                 _check_frame(case, crit, thr, fr, ests, gts, pre_e, pre_g, acc, pre_results=pre_results)
     else:
